@@ -7,7 +7,7 @@ Confirms a seeded change delivered in <seed-dir>/out (patch.diff, demo/run.sh, m
   4. stores patch, demo and meta.json under /verif/seeded/<name>/ with the results
 Never touches /repo."""
 import json, os, shutil, subprocess, sys, time
-V = '/verif'; REPO = os.environ.get('MUT_REPO', '/tmp/me/repo'); SB = '/tmp/me/sb'; SB0 = '/tmp/me/sb0'
+V = '/verif'; BASE = os.environ.get('MUT_BASE', '/tmp/me'); REPO = BASE + '/repo'; SB = BASE + '/sb'; SB0 = BASE + '/sb0'
 def sh(cmd, **kw):
     return subprocess.run(cmd, shell=True, stdout=subprocess.PIPE, stderr=subprocess.STDOUT, text=True, **kw)
 def main():
@@ -31,7 +31,7 @@ def main():
         r1 = sh('bash %s/demo/run.sh %s' % (out, SB), cwd=os.path.join(out, 'demo')); res['demo_with_change'] = r1.returncode
         r0 = sh('bash %s/demo/run.sh %s' % (out, SB0), cwd=os.path.join(out, 'demo')); res['demo_without_change'] = r0.returncode
         res['demo_tail_with'] = r1.stdout[-400:]
-        env = dict(os.environ, VERIF_REPO=REPO, VERIF_BUILD='/tmp/me/build', VERIF_EVIDENCE_DIR='/tmp/me/out/evidence', VERIF_FINDINGS_DIR='/tmp/me/out/findings/' + name,
+        env = dict(os.environ, VERIF_REPO=REPO, VERIF_BUILD=BASE + '/build', VERIF_EVIDENCE_DIR=BASE + '/out/evidence', VERIF_FINDINGS_DIR=BASE + '/out/findings/' + name,
                    VERIF_WORKERS=os.environ.get('VERIF_WORKERS', '8'))
         res['checks'] = {}
         for c in checks:
@@ -39,7 +39,7 @@ def main():
             viol = [l for l in p.stdout.split('\n') if l.startswith('VIOLATION')]
             res['checks'][c] = {'result': 'CAUGHT' if (p.returncode == 1 and viol) else ('BUILD-FAIL' if p.returncode == 2 else 'missed'), 'violations': len(viol), 'wall_s': int(time.time() - t0),
                                 'summary': [l for l in p.stdout.split('\n') if l.startswith(c + ' tier')][-1:]}
-            open('/tmp/me/out/seed.%s.%s.log' % (name, c), 'w').write(p.stdout)
+            os.makedirs(BASE + '/out', exist_ok=True); open(BASE + '/out/seed.%s.%s.log' % (name, c), 'w').write(p.stdout)
     finally:
         sh('git -C %s checkout -- . && git -C %s clean -fdq' % (REPO, REPO))
     dst = os.path.join(V, 'seeded', name); os.makedirs(dst, exist_ok=True)
